@@ -931,6 +931,41 @@ func ruleListDiff(w *World, r *Report, pkg *ssa.Package) {
 				r.Check(ra[recv] && !ra[other] && rb[other] && !rb[recv], rule, fnName(fnDiff)+":hash-sequences-per-side", pos,
 					"aHashes is built from the receiver's elements only, bHashes from the argument's elements only",
 					"the per-side hash sequences are mixed up or built from the wrong array")
+				// the LCS is computed over the very sequences the walk compares against
+				sameSeq := false
+				// the producer: follow method receivers back to the function call that made the LCS object
+				var prod *ssa.Call
+				for v, guard := strip(cs), 0; guard < 6; guard++ {
+					c, ok := v.(*ssa.Call)
+					if !ok {
+						break
+					}
+					if sf := staticCallee(c); sf != nil && sf.Signature.Recv() != nil && len(c.Call.Args) > 0 {
+						v = strip(c.Call.Args[0])
+						continue
+					}
+					if c.Call.IsInvoke() {
+						v = strip(c.Call.Value)
+						continue
+					}
+					prod = c
+					break
+				}
+				if prod != nil {
+					hasA, hasB := false, false
+					for _, a := range prod.Call.Args {
+						if strip(a) == strip(ah) {
+							hasA = true
+						}
+						if strip(a) == strip(bh) {
+							hasB = true
+						}
+					}
+					sameSeq = hasA && hasB
+				}
+				r.Check(sameSeq, rule, fnName(fnDiff)+":lcs-over-the-walked-sequences", pos,
+					"the call that computes the common subsequence receives exactly the two hash sequences the hunk walk uses",
+					"the common subsequence is computed over other sequences than the ones the hunk walk compares against (filtered, truncated or re-hashed): common elements are missed and the edit script is not minimal")
 				// both hash sequences are made of element hashCodes
 				okH := true
 				for _, hv := range []ssa.Value{ah, bh} {
@@ -993,6 +1028,37 @@ func ruleListDiff(w *World, r *Report, pkg *ssa.Package) {
 		r.Check(okRec, rule, fnName(fnRest)+":same-kind-recursion", w.Pos(fnRest.Pos()), "containers of the same kind at the same position are diffed recursively (on the sameContainerType-true edge)",
 			"same-position containers are no longer diffed recursively: they are replaced wholesale")
 	}
+	// same-kind test looks at kinds only
+	{
+		const rule = "R-LCSDEP"
+		if sct := pkg.Func("sameContainerType"); sct != nil {
+			r.Fn(fnName(sct))
+			bad := ""
+			for _, b := range sct.Blocks {
+				cond, _, _, ok := branchEdges(b)
+				if !ok {
+					continue
+				}
+				ex, isEx := cond.(*ssa.Extract)
+				if isEx {
+					if _, isTA := ex.Tuple.(*ssa.TypeAssert); isTA {
+						continue
+					}
+				}
+				bad = w.Pos(b.Instrs[len(b.Instrs)-1].Pos())
+			}
+			allInstrs(sct, func(in ssa.Instruction) {
+				switch in.(type) {
+				case *ssa.Range, *ssa.Lookup, *ssa.Index, *ssa.IndexAddr:
+					bad = w.Pos(in.Pos())
+				}
+			})
+			r.Check(bad == "", rule, fnName(sct)+":kinds-only", w.Pos(sct.Pos()), "whether two nodes are containers of the same kind is decided by type assertions only",
+				"the same-kind test inspects the containers' contents (at "+bad+"): some same-kind containers at the same position are replaced wholesale instead of being diffed recursively")
+		} else {
+			r.Bad(rule, "v2.sameContainerType", "-", "sameContainerType not found")
+		}
+	}
 	// R-CTX1
 	{
 		const rule = "R-CTX1"
@@ -1009,4 +1075,103 @@ func ruleListDiff(w *World, r *Report, pkg *ssa.Package) {
 			r.Bad(rule, fnName(fnRest)+":instance-floor", w.Pos(fnRest.Pos()), fmt.Sprintf("only %d context stores found in the list diff", n))
 		}
 	}
+}
+
+// ruleWholeObject: the object diff replaces the whole value only when the
+// other side is not an object; two objects are always diffed key by key.
+func ruleWholeObject(w *World, r *Report, pkg *ssa.Package, tag, fAdd string) {
+	rule := "R-WHOLEOBJ"
+	if tag == "lib" {
+		rule += "(lib)"
+	}
+	fn := w.MethodOpt(pkg, "jsonObject", "diff")
+	if fn == nil {
+		infra("%s: (jsonObject).diff not found", tag)
+	}
+	r.Fn(fnName(fn))
+	h := newHunkType(pkg)
+	other := fn.Params[1]
+	// the assertion n.(jsonObject) and its miss edge
+	var missEdges []Edge
+	var asserted ssa.Value
+	for _, b := range fn.Blocks {
+		for _, in := range b.Instrs {
+			ta, ok := in.(*ssa.TypeAssert)
+			if !ok || !ta.CommaOk || ta.X != ssa.Value(other) || typeName(ta.AssertedType) != "jsonObject" {
+				continue
+			}
+			for _, ref := range *ta.Referrers() {
+				ex, ok := ref.(*ssa.Extract)
+				if !ok {
+					continue
+				}
+				if ex.Index == 0 {
+					asserted = ex
+				}
+				if ex.Index == 1 {
+					for _, bb := range fn.Blocks {
+						if cond, _, fE, okb := branchEdges(bb); okb && cond == ssa.Value(ex) {
+							missEdges = append(missEdges, fE)
+						}
+					}
+				}
+			}
+		}
+	}
+	if len(missEdges) == 0 {
+		r.Unk(rule, fnName(fn)+":type-test", w.Pos(fn.Pos()), "no checked assertion of the argument to jsonObject found")
+		return
+	}
+	n, bad := 0, ""
+	for _, fs := range h.fieldStores(fn, fAdd) {
+		for _, el := range appendedElems(fs.st.Val) {
+			whole := false
+			var check func(v ssa.Value, depth int)
+			check = func(v ssa.Value, depth int) {
+				v = strip(v)
+				if v == ssa.Value(other) || (asserted != nil && v == asserted) {
+					whole = true
+					return
+				}
+				if depth > 3 {
+					return
+				}
+				switch x := v.(type) {
+				case *ssa.Slice:
+					if a, ok := x.X.(*ssa.Alloc); ok {
+						for _, ref := range *a.Referrers() {
+							if ia, ok := ref.(*ssa.IndexAddr); ok {
+								for _, r2 := range *ia.Referrers() {
+									if st, ok := r2.(*ssa.Store); ok {
+										check(st.Val, depth+1)
+									}
+								}
+							}
+						}
+					}
+				case *ssa.Call:
+					if sf := staticCallee(x); sf != nil && sf.Name() == "nodeList" && len(x.Call.Args) == 1 {
+						check(x.Call.Args[0], depth+1)
+					}
+				}
+			}
+			check(el, 0)
+			if !whole {
+				continue
+			}
+			n++
+			okEdge := false
+			for _, e := range missEdges {
+				if edgeDominatesOrSame(e, fs.st.Block()) {
+					okEdge = true
+				}
+			}
+			if !okEdge {
+				bad = w.Pos(fs.st.Pos())
+			}
+		}
+	}
+	r.Check(bad == "" && n > 0, rule, fnName(fn)+":whole-value-only-for-non-objects", w.Pos(fn.Pos()),
+		fmt.Sprintf("the %d hunks that put the whole argument into %s lie on the edge where the argument is not an object", n, fAdd),
+		"a hunk at "+bad+" replaces the receiver by the whole argument although both are objects: objects must be diffed key by key (a merge patch that writes {} over an object changes nothing under RFC 7386)")
 }
